@@ -84,7 +84,7 @@ fn base_outcome(r: &Report) -> Outcome {
             *o.fired.entry(k).or_insert(0) += 1;
         }
     }
-    for p in r.panics.iter().filter(|p| !p.msg.starts_with("deadlock!") && !p.msg.starts_with("exceeded max_steps") && !p.msg.starts_with("simulated application panic")).take(2) {
+    for p in r.panics.iter().filter(|p| !p.msg.starts_with("deadlock!") && !p.msg.starts_with("exceeded max_steps") && !p.msg.starts_with("simulated application panic") && !p.msg.starts_with("scripted task panic")).take(2) {
         o.notes.push(format!("panic seen: {} (connection {:?})", panic_text(p), p.conn));
     }
     let caught = r.panics.iter().filter(|p| !p.msg.starts_with("deadlock!") && !p.msg.starts_with("exceeded max_steps")).count().saturating_sub(r.threads.iter().filter(|t| t.panic.is_some()).count());
